@@ -97,6 +97,7 @@ MANIFEST = dict(
          "by-product), genMany_no_lookahead and gen_prefix_determined for sequences of fakes; with 'the Mersenne Twister "
          "is a function of seed and request sequence' (trusted) that is the property. What decides C17 for the code is run "
          "every time: the same schema sequences are faked after set_seed(k) — int, str, bytes seeds — in fresh "
-         "interpreters with 4 (quick) / 8 (thorough) hash seeds and twice within a process, and compared.",
+         "interpreters with 4 (quick) / 8 (thorough) hash seeds and twice within a process, and compared."
+         " Source pins: the normalised text of every anchor file is compared with the text the model was last validated against; a changed file is a broken obligation (no-failing-input-found unless the search finds an input).",
     note="Partial: NoNegClass (K1: candidates of a negated class are ordered by set iteration, i.e. by PYTHONHASHSEED). The "
          "theorem is thin by nature; the runtime behaviour (hash randomisation) cannot be exhibited by the model.")
